@@ -1,17 +1,69 @@
-"""Thorough tier: the quick rules plus the both-ways self-test of the checker for this property."""
+"""Thorough tier: the quick rules, plus (a) layout invariance - the same rules on a copy of the tree passed through
+ast.unparse (every line number, comment and layout changes, behaviour does not) must give identical obligations -
+and (b) the both-ways self-test of the checker for this property (breaking variants fire, benign variants stay silent)."""
 from __future__ import annotations
+
+import ast
+import json
+import os
+import shutil
+import subprocess
+import sys
+import tempfile
 
 from . import selftest
 
+VERIF = os.path.dirname(os.path.dirname(os.path.abspath(__file__)))
+
+
+def unparse_invariance(ctx, mine):
+    tmp = tempfile.mkdtemp(prefix="sa_unparse_", dir=os.environ.get("VERIF_SCRATCH", "/tmp"))
+    try:
+        dst = os.path.join(tmp, "src")
+        shutil.copytree(os.path.join(ctx.repo, "src"), dst, ignore=shutil.ignore_patterns("__pycache__"))
+        n = 0
+        for dp, dn, fn in os.walk(dst):
+            for f in fn:
+                if f.endswith(".py"):
+                    p = os.path.join(dp, f)
+                    src = open(p).read()
+                    try:
+                        out = ast.unparse(ast.parse(src))
+                    except SyntaxError:
+                        continue
+                    open(p, "w").write(out + "\n")
+                    n += 1
+        keys_file = os.path.join(tmp, "keys.json")
+        env = dict(os.environ, VERIF_REPO=tmp, VERIF_EVIDENCE_DIR=os.path.join(tmp, "ev"), VERIF_DUMP_KEYS=keys_file, PYTHONPATH=VERIF)
+        env.pop("VERIF_TIER", None)
+        r = subprocess.run([sys.executable, "-m", "sa.check", ctx.prop, "--tier", "quick"], cwd=VERIF, env=env, capture_output=True, text=True, timeout=900)
+        theirs = set(json.load(open(keys_file))) if os.path.exists(keys_file) else None
+        res = {"files_rewritten": n, "exit_on_rewritten_tree": r.returncode, "obligations_here": len(mine),
+               "obligations_there": len(theirs) if theirs is not None else None,
+               "identical": theirs is not None and theirs == mine}
+        if theirs is not None and theirs != mine:
+            res["only_here"] = sorted(mine - theirs)[:10]
+            res["only_there"] = sorted(theirs - mine)[:10]
+        return res
+    finally:
+        shutil.rmtree(tmp, ignore_errors=True)
+
 
 def extend(ctx, mod):
+    mine = {f"{o.key}|{'holds' if o.ok else 'FAILS'}" for o in ctx.obs}
     if hasattr(mod, "run_thorough"):
         mod.run_thorough(ctx)
+    inv = unparse_invariance(ctx, mine)
+    ctx.extra["layout_invariance"] = inv
+    if not inv.get("identical"):
+        print(f"LAYOUT-INVARIANCE-DIFF {ctx.prop}: {json.dumps(inv)[:600]}")
     cat = [m for m in selftest.load_catalog() if m["prop"] == ctx.prop]
     res = selftest.run_many(cat, jobs=16)
     ctx.extra["selftest"] = {
         "variants": len(res),
         "as_expected": sum(1 for r in res if r["status"] == "ok"),
+        "breaking_variants_detected": [f"{r['name']} -> {r.get('rules')}" for r in res if r["status"] == "ok" and not r.get("benign")],
+        "benign_variants_silent": [r["name"] for r in res if r["status"] == "ok" and r.get("benign")],
         "inapplicable": [r["name"] for r in res if r["status"] == "inapplicable"],
         "missed": [r["name"] for r in res if r["status"] == "MISS"],
         "note": "each breaking variant must make this check exit 1 naming the rule; each benign variant must stay silent; "
